@@ -1,6 +1,7 @@
 package harness
 
 import (
+	"bytes"
 	"encoding/json"
 	"fmt"
 	"reflect"
@@ -378,6 +379,81 @@ func checkReported(c reportedCase) (msg string, bad bool, rejected bool) {
 	}
 	if !reflect.DeepEqual(r1, r2) {
 		return "a parser built from the reported configuration behaves differently: " + firstDiff(r1, r2), true, false
+	}
+	// What a parser reports does not change by using it ...
+	same := func(p lz.Parser, when string) (string, bool) {
+		if rep := p.ParserConfig(); reflect.TypeOf(rep) != reflect.TypeOf(want) || !reflect.DeepEqual(rep, want) {
+			return fmt.Sprintf("%s: ParserConfig() = %+v; the defaults-completed configuration is %+v", when, rep, want), true
+		}
+		if bc := p.BufferConfig(); bc != want.BufConfig() {
+			return fmt.Sprintf("%s: BufferConfig() = %+v; the defaults-completed configuration has %+v", when, bc, want.BufConfig()), true
+		}
+		return "", false
+	}
+	if m, b := same(p, "after parsing"); b {
+		return m, true, false
+	}
+	// ... nor by wrapping it.
+	p3, err := cfg.Clone().NewParser()
+	if err != nil {
+		return "", false, false
+	}
+	var r3 []any
+	var e3 error
+	func() {
+		defer func() {
+			if r := recover(); r != nil {
+				e3 = fmt.Errorf("panic: %v", r)
+			}
+		}()
+		wp := lz.Wrap(bytes.NewReader(c.Text), p3)
+		if m, b := same(p3, "after Wrap"); b {
+			msg, bad = m, true
+			return
+		}
+		var blk lz.Block
+		for i := 0; i < len(c.Text)+4; i++ {
+			n, err := wp.Parse(&blk, 0)
+			r3 = append(r3, []any{n, errName(err), cloneSeqs(blk.Sequences), string(blk.Literals)})
+			if err != nil {
+				break
+			}
+		}
+		if m, b := same(p3, "after parsing through Wrap"); b {
+			msg, bad = m, true
+		}
+	}()
+	if bad {
+		return msg, true, false
+	}
+	if e3 != nil {
+		return "", false, false // C16's business
+	}
+	// a parser built from the configuration reported after wrapping streams
+	// the same blocks
+	p4, err := p3.ParserConfig().Clone().NewParser()
+	if err != nil {
+		return fmt.Sprintf("the configuration %+v reported after Wrap is rejected by NewParser: %v", p3.ParserConfig(), err), true, false
+	}
+	var r4 []any
+	func() {
+		defer func() {
+			if r := recover(); r != nil {
+				e3 = fmt.Errorf("panic: %v", r)
+			}
+		}()
+		wp := lz.Wrap(bytes.NewReader(c.Text), p4)
+		var blk lz.Block
+		for i := 0; i < len(c.Text)+4; i++ {
+			n, err := wp.Parse(&blk, 0)
+			r4 = append(r4, []any{n, errName(err), cloneSeqs(blk.Sequences), string(blk.Literals)})
+			if err != nil {
+				break
+			}
+		}
+	}()
+	if e3 == nil && !reflect.DeepEqual(r3, r4) {
+		return "a wrapped parser built from the configuration reported after Wrap streams other blocks: " + firstDiff(r3, r4), true, false
 	}
 	return "", false, false
 }
